@@ -19,6 +19,6 @@ for it in nfa.UNIT['items']:
         items.append(RawFile(os.path.join(HERE, '..', 'u_nfa', it.path), it.label))
     else:
         items.append(it)
-items += [RawFile('lang_path.rs'), RawFile('lang_embed.rs'), RawFile('lang_constr.rs')]
+items += [RawFile('lang_path.rs'), RawFile('lang_embed.rs'), RawFile('lang_constr.rs'), RawFile('lang_regex.rs'), RawFile('lang_thm.rs')]
 
 UNIT = dict(name='u_lang', externs=['regex_syntax'], header=nfa.UNIT['header'], items=items)
